@@ -107,7 +107,8 @@ def run(res):
                 if st != src or C.unhexs(c[2]) != raw[4:]:
                     res.violation("mode 0 changed the RPU", {"op": "seq", "case": l, "impl": o[:2000]})
             elif md == 1 and vdr12 and cdt == 0:
-                if st["dovi_profile"] != 7 or st.get("el_type") != "MEL":
+                # without a mapping (use_prev_vdr_rpu_flag) there is no NLQ to make MEL: flags only
+                if st["dovi_profile"] != 7 or (src.get("rpu_data_mapping") and st.get("el_type") != "MEL"):
                     res.violation("mode 1 result is profile %s %s, expected 7 MEL" % (st["dovi_profile"], st.get("el_type")), {"op": "seq", "case": l, "impl": o[:2000]})
             elif md in (2, 4):
                 if st["dovi_profile"] != 8 or st.get("el_type") is not None:
@@ -123,7 +124,9 @@ def run(res):
                 mp = st.get("rpu_data_mapping") or {}
                 if st["dovi_profile"] != 8 or [cu.get("num_pivots_minus2") for cu in mp.get("curves", [])] != [7, 0, 0]:
                     res.violation("mode 4 (8.4) result is not the static HLG reshaping", {"op": "seq", "case": l, "impl": o[:2000]})
-            # idempotence
+            # idempotence (mode 1 on a non 12-bit VDR source yields a profile the mode no longer accepts)
+            if md == 1 and not vdr12:
+                continue
             l2, o2 = by[(raw, "twice", md)]
             if o2.startswith("ok "):
                 c2 = opgen.canon_seq(o2)
